@@ -233,11 +233,45 @@ def check_rule(ctx, case):
                     ctx.check(s1 == (s0 or "dim"), sig + "/suffix", lambda: "%r -> %r" % (prog[idx], r))
                 elif not arg:
                     ctx.check(SUFFIX_MAP[rule].get(s0) == s1, sig + "/suffix", lambda: "%r -> %r" % (prog[idx], r))
+    if rule == "general" and arg > 0 and not failed(res) and isinstance(res, list):
+        # documented recursion: "if depth > 0 the substitutions of each result will be recursively added as well"
+        r0 = ctx.ok(sig, f, copy.deepcopy(prog), idx, 0)
+        if not failed(r0):
+            exp = list(r0)
+            for x in r0:
+                p2 = copy.deepcopy(prog)
+                p2[idx] = x
+                sub = ctx.ok(sig, f, p2, idx, arg - 1)
+                if failed(sub):
+                    exp = None
+                    break
+                exp += list(sub)
+            if exp is not None:
+                ctx.check(list(res) == exp, sig + "/recursion", lambda: "%r[%d] depth %d -> %r, depth-0 results and their substitutions give %r" % (
+                    prog, idx, arg, res, exp))
     ctx.note_case(_key_acc(key) or a0 != 0 or s0 != "" or (rule == "general" and arg > 0),
-                  ["rule:" + rule, "rule:%s:%s" % (rule, "empty" if nres == 0 else "results")])
+                  ["rule:" + rule, "rule:%s:%s" % (rule, "empty" if nres == 0 else "results"), "index:negative" if idx < 0 else "index:non-negative"])
 
 
-CHECKS = {"diatonic": check_diatonic, "numeral": check_numeral, "unrecognised": check_unrecognised,
+def check_tochords_list(ctx, case):
+    """to_chords on a whole progression is element-wise: every chord is what the numeral denotes on its own"""
+    prog, key = case
+    before = list(prog)
+    r = ctx.ok("to_chords/list", progressions.to_chords, prog, key)
+    ctx.check(prog == before, "caller-list-modified/to_chords", lambda: "%r became %r" % (before, prog))
+    if not failed(r) and ctx.check(isinstance(r, list) and len(r) == len(prog), "to_chords/list/length", lambda: "%r -> %r" % (prog, r)):
+        for i, (el, ch) in enumerate(zip(prog, r)):
+            num, acc, suf = R.parse_numeral(el)
+            exp = _numeral_items(key, NUM.index(num.upper()), acc, suf) if num.upper() in NUM else None
+            if exp is not None:
+                ctx.check(R.chord_ok(ch, exp), "to_chords/list/element", lambda: "to_chords(%r, %r)[%d] -> %r, expected %r" % (prog, key, i, ch, exp))
+            single = ctx.ok("to_chords/list", progressions.to_chords, el, key)
+            ctx.check(failed(single) or single == [ch], "to_chords/list/differs-from-single", lambda: "to_chords(%r, %r)[%d] -> %r, alone %r" % (prog, key, i, ch, single))
+    degs = [R.parse_numeral(e)[0].upper() for e in prog]
+    ctx.note_case(len(set(degs)) < len(degs), ["tochords-list:repeated-degree" if len(set(degs)) < len(degs) else "tochords-list:distinct"])
+
+
+CHECKS = {"tochords_list": check_tochords_list, "diatonic": check_diatonic, "numeral": check_numeral, "unrecognised": check_unrecognised,
           "function": check_function, "roundtrip": check_roundtrip, "rule": check_rule}
 
 
@@ -319,10 +353,18 @@ def sub_progressions(ctx, shard, n):
     el = st.builds(lambda a, num, lo, suf: R.prefix(a) + (num.lower() if lo else num) + suf,
                    st.integers(-3, 3) | st.just(0), st.sampled_from(NUM), st.booleans(),
                    st.sampled_from(sufs) | st.sampled_from(["", "7", "m", "M", "m7", "M7", "dim", "dim7"]))
-    strat = st.builds(lambda prog, i, ra, k: [ra[0], prog, i % len(prog), ra[1], k],
-                      st.lists(el, min_size=1, max_size=4), st.integers(0, 3), st.sampled_from(_rule_args()),
+    strat = st.builds(lambda prog, i, ra, k: [ra[0], prog, (i % len(prog)) if i >= 0 else -1 - ((-i - 1) % len(prog)), ra[1], k],
+                      st.lists(el, min_size=1, max_size=4), st.integers(-4, 3), st.sampled_from(_rule_args()),
                       st.sampled_from(MAJORS))
     ctx.given("rule", check_rule, strat, 2500 if ctx.quick else 10000)
+    # whole progressions with repeated degrees (same numeral with different prefixes / suffixes)
+    def mk(degs, picks, key):
+        return [[R.prefix(a) + (degs[i % len(degs)].lower() if lo else degs[i % len(degs)]) + suf for (i, a, lo, suf) in picks], key]
+    lst = st.builds(mk, st.lists(st.sampled_from(NUM), min_size=1, max_size=2),
+                    st.lists(st.tuples(st.integers(0, 3), st.integers(-2, 2), st.booleans(),
+                                       st.sampled_from(["", "7", "", "7", "m", "m7", "dim", "M7", "6", "sus4"])), min_size=2, max_size=6),
+                    st.sampled_from(T.ALL_KEYS))
+    ctx.given("tochords_list", check_tochords_list, lst, 800 if ctx.quick else 5000)
 
 
 SUBS = [
